@@ -10,7 +10,9 @@ package main
 
 import (
 	"bufio"
+	"fmt"
 	"io"
+	"math/rand"
 	"os"
 	"os/exec"
 	"strings"
@@ -28,11 +30,19 @@ const childAddressSpace = 8 << 30
 func childMain() {
 	lim := syscall.Rlimit{Cur: childAddressSpace, Max: childAddressSpace}
 	_ = syscall.Setrlimit(syscall.RLIMIT_AS, &lim)
-	setup()
+	if os.Getenv("C16_CHILD") != "probe" {
+		// (the probe child does reference work with the harness's own code only: it must not depend on the tree under test)
+		setup()
+	}
 	rd := bufio.NewReaderSize(os.Stdin, 1<<16)
 	w := bufio.NewWriter(os.Stdout)
 	for {
 		line, err := rd.ReadString('\n')
+		if strings.HasPrefix(line, "PROBE") {
+			_, _ = w.WriteString(probeWork() + "\n")
+			_ = w.Flush()
+			continue
+		}
 		if line != "" {
 			obs := runCase(strings.TrimRight(line, "\r\n"))
 			obs = strings.NewReplacer("\n", " ", "\r", " ", "\t", " ").Replace(obs)
@@ -94,13 +104,15 @@ type child struct {
 	errs *headBuffer
 }
 
-func spawn() (*child, error) {
+func spawn() (*child, error) { return spawnMode("1") }
+
+func spawnMode(mode string) (*child, error) {
 	exe, err := os.Executable()
 	if err != nil {
 		return nil, err
 	}
 	cmd := exec.Command(exe)
-	cmd.Env = append(os.Environ(), "C16_CHILD=1")
+	cmd.Env = append(os.Environ(), "C16_CHILD="+mode)
 	in, err := cmd.StdinPipe()
 	if err != nil {
 		return nil, err
@@ -134,11 +146,18 @@ func initPool() {
 	for i := 0; i < poolSize; i++ {
 		pool <- nil // spawned on first use
 	}
+	runStart = time.Now()
 }
 
 func closePool() {
 	if pool == nil {
 		return
+	}
+	if os.Getenv("C16_TIMES") != "" {
+		timesMu.Lock()
+		fmt.Fprintf(os.Stderr, "c16: %d cases, slowest first attempt %v, suspects %d, confirmed hangs %d, wall %v\n  %s\n",
+			nCases, slowest.Round(time.Millisecond), suspects, confirmed, time.Since(runStart).Round(time.Millisecond), drv.Trunc(slowestInput, 300))
+		timesMu.Unlock()
 	}
 	for i := 0; i < poolSize; i++ {
 		select {
@@ -152,16 +171,61 @@ func closePool() {
 	}
 }
 
-// runViaChild: one case in a child process
-func runViaChild(input string) string {
-	poolOnce.Do(initPool)
-	c := <-pool
+// ---------------------------------------------------------------- time limits and the hang verdict
+//
+// A case takes milliseconds.  What the harness reports about one that does not finish:
+//
+//  1. first attempt, among the other cases of the run: a pooled child, limit firstLimit.  Not finishing here proves
+//     nothing (cold caches, a loaded machine, a stalled sibling): the child is killed and the case becomes a SUSPECT.
+//  2. a suspect is run again ALONE: every other worker of this run is held back (gate), a fresh child gets the case with
+//     the generous aloneLimit, and beside it one more child keeps doing a fixed piece of REFERENCE work (harness code only:
+//     printing descriptions) and measures how long each round takes.  The case finishes -> that observation counts, nothing
+//     else is said.  It does not finish although at least three reference rounds in a row finished meanwhile, each in
+//     under aloneLimit/20 -> `HANG confirmed alone …` (Spec: fail:hang, with the input as the replay).  It does not
+//     finish and the reference rounds were slow or too few -> `SLOW …`: the machine was not responsive, nothing is
+//     judged (skip:inconclusive-timeout).
+//  3. a tree that hangs on one input usually hangs on hundreds: at most hangBudget+1 suspects are run alone, and after
+//     stopAfter suspects the remaining cases are not run at all (`SLOW not run`), so that the run ends with its
+//     concrete failing inputs within the time budget instead of waiting out every case.
+//  4. independent of hangs: a case not STARTED within runBudget of the run's first case is `SLOW not run` (a quick run on
+//     an overloaded machine ends in bounded time; what was run is judged).
+var (
+	firstLimit = 10 * time.Second
+	aloneLimit = 30 * time.Second
+	runBudget  = 75 * time.Second
+	hangBudget = 1
+	stopAfter  = 12
+
+	gate     sync.RWMutex // first attempts hold it shared, a run-alone holds it exclusively
+	aloneMu  sync.Mutex   // one run-alone at a time
+	timesMu  sync.Mutex
+	runStart time.Time
+
+	nCases, suspects, aloneRuns, confirmed int
+	slowest                     time.Duration
+	slowestInput                string
+)
+
+func setLimits(tier string) {
+	if tier == "thorough" {
+		firstLimit, aloneLimit, runBudget, hangBudget, stopAfter = 20*time.Second, 60*time.Second, 25*time.Minute, 3, 40
+	}
+}
+
+// frameworkTimeout: the framework's own watchdog (observation HANG, unconfirmed, counted as inconclusive) must never
+// fire before this file has had its say: a first attempt, waiting for the run-alone of other suspects, the own one
+func frameworkTimeout() time.Duration {
+	return firstLimit + time.Duration(hangBudget+2)*(aloneLimit+firstLimit) + 2*time.Minute
+}
+
+// once runs one case in child c (nil: a fresh one); ok=false: no reply within limit (the child is killed) — obs is
+// then empty; a child that died is a reply (PANIC …)
+func once(c *child, input string, limit time.Duration) (obs string, ok bool, back *child) {
 	if c == nil {
 		var err error
 		if c, err = spawn(); err != nil {
-			pool <- nil
 			// no child processes on this machine: run the case here
-			return runCase(input)
+			return runCase(input), true, nil
 		}
 	}
 	c.errs.reset()
@@ -178,26 +242,186 @@ func runViaChild(input string) string {
 		l, err := c.out.ReadString('\n')
 		done <- reply{l, err}
 	}()
+	timer := time.NewTimer(limit)
+	defer timer.Stop()
 	select {
 	case r := <-done:
 		if r.err == nil {
 			if strings.HasPrefix(r.line, "SLOW no result") {
 				c.kill() // the child leaves after such a reply
-				pool <- nil
-			} else {
-				pool <- c
+				return "", false, nil
 			}
-			return strings.TrimRight(r.line, "\r\n")
+			return strings.TrimRight(r.line, "\r\n"), true, c
 		}
 		_ = c.cmd.Wait()
 		time.Sleep(20 * time.Millisecond) // let the stderr copier finish
 		why := c.errs.reason()
 		c.kill()
-		pool <- nil
-		return "PANIC the process died: " + drv.Trunc(drv.Clean(why), 300)
-	case <-time.After(hardLimit + 20*time.Second):
+		return "PANIC the process died: " + drv.Trunc(drv.Clean(why), 300), true, nil
+	case <-timer.C:
 		c.kill()
-		pool <- nil
-		return "SLOW no result within " + hardLimit.String() + " (child killed)"
+		return "", false, nil
 	}
+}
+
+// probeWork: the reference work of the responsiveness probe — the harness's OWN code only (nothing of the tree under
+// test, which may be what hangs): a few dozen descriptions generated and printed in both syntaxes, some tens of
+// milliseconds of CPU, allocation and a round trip through two pipes
+func probeWork() string {
+	g := &gen{r: rand.New(rand.NewSource(0x5eed16))}
+	n := 0
+	for i := 0; i < 40; i++ {
+		d := g.describe()
+		h := printHCL(d, rand.New(rand.NewSource(int64(i))), 60)
+		y, _ := printYAML(d, rand.New(rand.NewSource(int64(i+1))), 30)
+		n += len(h.text) + len(y)
+	}
+	return fmt.Sprintf("PROBE ok %d", n)
+}
+
+// runViaChild: one case in a child process
+func runViaChild(input string) string {
+	poolOnce.Do(initPool)
+	timesMu.Lock()
+	nCases++
+	limit := firstLimit
+	stop := suspects >= stopAfter
+	late := time.Since(runStart) > runBudget
+	if aloneRuns > hangBudget {
+		limit = firstLimit / 4
+	}
+	nconf := confirmed
+	timesMu.Unlock()
+	if stop {
+		return fmt.Sprintf("SLOW not run: %d cases of this run did not finish among the others (%d of them confirmed as hangs when run alone)", stopAfter, nconf)
+	}
+	if late {
+		return "SLOW not run: the run's time budget of " + runBudget.String() + " was used up before this case started"
+	}
+	gate.RLock()
+	c := <-pool
+	t0 := time.Now()
+	obs, ok, back := once(c, input, limit)
+	dt := time.Since(t0)
+	pool <- back
+	gate.RUnlock()
+	if ok {
+		timesMu.Lock()
+		if dt > slowest {
+			slowest, slowestInput = dt, input
+		}
+		timesMu.Unlock()
+		return obs
+	}
+	return runAlone(input, limit)
+}
+
+// runAlone: the second look at a case that did not finish among the others
+func runAlone(input string, first time.Duration) string {
+	timesMu.Lock()
+	suspects++
+	timesMu.Unlock()
+	aloneMu.Lock()
+	defer aloneMu.Unlock()
+	timesMu.Lock()
+	full := aloneRuns > hangBudget
+	if !full {
+		aloneRuns++
+	}
+	timesMu.Unlock()
+	if full {
+		return fmt.Sprintf("SLOW no result within %v among the other cases; not run alone: %d cases of this run were run alone already (%d confirmed hangs)", first, aloneRuns, confirmed)
+	}
+	gate.Lock() // every first attempt in flight is over, no new one starts
+	defer gate.Unlock()
+	// the reference work, again and again, in a child of its own
+	ref := "PROBE"
+	stopRef := make(chan struct{})
+	type refStat struct {
+		n        int
+		max      time.Duration
+		streak   int // reference rounds in a row under the bound, up to now
+		bestRun  int
+		lastDone time.Time
+	}
+	var rs refStat
+	var rmu sync.Mutex
+	bound := aloneLimit / 20
+	refDone := make(chan struct{})
+	go func() {
+		defer close(refDone)
+		rc, err := spawnMode("probe")
+		if err != nil {
+			return
+		}
+		defer func() {
+			if rc != nil {
+				rc.kill()
+			}
+		}()
+		for {
+			select {
+			case <-stopRef:
+				return
+			default:
+			}
+			if rc == nil {
+				if rc, err = spawnMode("probe"); err != nil {
+					return
+				}
+			}
+			t0 := time.Now()
+			_, ok, back := once(rc, ref, aloneLimit)
+			rc = back
+			dt := time.Since(t0)
+			rmu.Lock()
+			rs.n++
+			if dt > rs.max {
+				rs.max = dt
+			}
+			if ok && dt < bound {
+				rs.streak++
+				if rs.streak > rs.bestRun {
+					rs.bestRun = rs.streak
+				}
+			} else {
+				rs.streak = 0
+			}
+			rs.lastDone = time.Now()
+			rmu.Unlock()
+			select {
+			case <-stopRef:
+				return
+			case <-time.After(aloneLimit / 40):
+			}
+		}
+	}()
+	t0 := time.Now()
+	obs, ok, back := once(nil, input, aloneLimit)
+	if back != nil {
+		back.kill()
+	}
+	close(stopRef)
+	select {
+	case <-refDone:
+	case <-time.After(2 * time.Second): // a round still in flight is a slow round: it will not be counted as a quick one
+	}
+	if ok {
+		return obs
+	}
+	rmu.Lock()
+	defer rmu.Unlock()
+	// responsive: the reference case kept finishing quickly up to the end of the wait
+	responsive := rs.n >= 3 && rs.max < bound && time.Since(rs.lastDone) < 4*bound+aloneLimit/40
+	if responsive {
+		timesMu.Lock()
+		confirmed++
+		timesMu.Unlock()
+		// (no measured values in the observation: the same hang gives the same line)
+		_ = t0
+		return fmt.Sprintf("HANG confirmed alone: no result within %v among the other cases and none within %v when run alone, while the reference work beside it finished every round within %v",
+			first, aloneLimit, bound)
+	}
+	return fmt.Sprintf("SLOW no result within %v when run alone, but the machine was not responsive: %d reference rounds, the slowest %v (bound %v)",
+		aloneLimit, rs.n, rs.max.Round(time.Millisecond), bound)
 }
